@@ -1,5 +1,7 @@
 import Driver.Proto
 import Model.RateLimiter
+import Model.RateLimiterInt
+import Model.RateLimiterWindow
 open Proto RL
 
 /-! Model driver of C16.  Area `burst`: one history = `reset <rootCap>` followed by calls of the exported API made in
@@ -22,8 +24,8 @@ def perLimiter (s : S) (f : Nat → String) : String := ",".intercalate ((List.r
 
 def glue (ws : List String) : String := " ".intercalate (ws.filter (fun w => !w.isEmpty))
 
-/-- `rate.New`, `Limiter.New` and `SetCap` store `max(capacity, 0)`: a negative argument (`New(-1)`,
-    `SetCap(math.MinInt)`) is the capacity 0 of the model (capacities are `Nat`), and `Cap()` reports 0 for it. -/
+/-- `rate.New`, `Limiter.New` and `SetCap` are given any Go `int`; the clamp `max(capacity, 0)` is the model's
+    (`RL.clampCap`, applied by `RL.initGo` and by the plans of `RL.exec`), not the driver's. -/
 structure DS where
   s : S
   /-- black-box mode (`reset <cap> bb`, fed by the check when the harness had to be built without the white-box
@@ -44,27 +46,30 @@ def DS.answers (d : DS) (s s' : S) : String :=
 
 def DS.capStr (d : DS) (l : Nat) (ap : Bool) : String := toString (capOf d.s l ap)
 
+/-- the decisions of `Use` computed twice: in Go's wrapping 64-bit ints, expression by expression as the code writes them
+    (`Model/RateLimiterInt.lean`), and on the model's naturals.  `C16.go_int_arithmetic_is_model_arithmetic` proves that
+    they agree on every reachable state; the driver runs both on every `use` line and says so if they ever differ. -/
+def intAgrees (s : S) (l amt : Nat) : Bool :=
+  fitsGo s.cap s.used (s.chain l) amt == fits s.cap s.used (s.chain l) amt &&
+  rootGuardGo s.cap s.used == decide (s.used 0 < s.cap 0) &&
+  (!fits s.cap s.used (s.chain l) amt ||
+    (s.chain l).all fun x => chargeGo s.used (s.chain l) amt x == ((charge s.used (s.chain l) amt x : Nat) : Int))
+
+/-- the whole state of the tree after a call, as the white-box harness prints it (`go/overlay/c16_rate_dump.go`):
+    capacity, used (open limiters only), last and closed flag of every limiter, and the waiting queue in order as
+    limiter:amount (requests on closed limiters left out) -/
+def dumpState (s : S) : String :=
+  "c=" ++ perLimiter s (fun x => toString (s.cap x)) ++
+  " u=" ++ perLimiter s (fun x => if s.closed x then "-" else toString (s.used x)) ++
+  " l=" ++ perLimiter s (fun x => toString (s.last x)) ++
+  " x=" ++ perLimiter s (fun x => if s.closed x then "1" else "0") ++
+  " q=" ++ ",".intercalate ((s.waiting.filter (fun r => !s.closed r.lim)).map
+              (fun r => toString r.lim ++ ":" ++ toString r.amt))
+
 /-! ### area `window`: all interleavings of the tick the goroutine has already received with up to three calls -/
 
 inductive WOp
   | use (l : Nat) (a : Int) | new (p c : Nat) | setcap (l c : Nat) | close (l : Nat)
-
-def enabledM (s : S) : Micro → Bool
-  | .useNeg => true
-  | .apiLock => s.holder == .free
-  | .apiRead | .use _ _ | .newChild _ _ | .closeChild _ | .setCap _ _ => s.holder == .api
-  | .closeLock => s.holder == .free && s.cpc == .idle
-  | .closeMark => s.holder == .closer && s.cpc == .crit && !s.closed 0
-  | .closeSkip => s.cpc == .crit && s.closed 0
-  | .closeUnlock => s.cpc == .marked
-  | .tickFires => s.tpc == .sel
-  | .tickLock => s.tpc == .tlock && s.holder == .free
-  | .tickRuns => s.tpc == .tcrit
-  | .tickUnlock => s.tpc == .tunl
-  | .doneReceived => s.tpc == .sel && s.cpc == .send
-  | .drainLock => s.tpc == .dlock && s.holder == .free
-  | .drain => s.tpc == .dcrit
-  | .drainUnlock => s.tpc == .dunl
 
 /-- the steps of one call, in program order -/
 def threadOf (s : S) : WOp → List Micro
@@ -76,19 +81,8 @@ def threadOf (s : S) : WOp → List Micro
                    else [.closeLock, .closeMark, .closeUnlock, .doneReceived])
     else [.apiLock, .closeChild l]
 
-/-- every complete interleaving of the threads (each step taken through `RL.micro`, so every outcome is a run of
-    `RL.Step`: `C16.schedule_is_run`); `none` = a schedule got stuck -/
-def explore : Nat → S → List (List Micro) → List (Option S)
-  | 0, _, _ => [none]
-  | fuel + 1, s, ths =>
-    if ths.all List.isEmpty then [some s]
-    else
-      let idx := List.range ths.length
-      let nexts := idx.filterMap fun i =>
-        match ths.getD i [] with
-        | [] => none
-        | m :: rest => if enabledM s m then some (micro s m, ths.set i rest) else none
-      if nexts.isEmpty then [none] else nexts.flatMap fun (s', ths') => explore fuel s' ths'
+-- the exploration of all interleavings is `RL.explore` (Model/RateLimiterWindow.lean; `C16.window_outcomes_are_runs`,
+-- `C16.window_exploration_is_complete`)
 
 def windowOutcome (s s' : S) (ops : List WOp) : String :=
   let useId := s.nextReq
@@ -113,8 +107,8 @@ def splitOps (ws : List String) : List (List String) :=
 
 def parseWOp (s : S) : List String → Option WOp
   | ["use", l, a] => match l.toNat?, a.toInt? with | some l, some a => if l < s.n then some (.use l a) else none | _, _ => none
-  | ["new", p, c] => match p.toNat?, c.toInt? with | some p, some c => if p < s.n then some (.new p c.toNat) else none | _, _ => none
-  | ["setcap", l, c] => match l.toNat?, c.toInt? with | some l, some c => if l < s.n then some (.setcap l c.toNat) else none | _, _ => none
+  | ["new", p, c] => match p.toNat?, c.toInt? with | some p, some c => if p < s.n then some (.new p (clampCap c)) else none | _, _ => none
+  | ["setcap", l, c] => match l.toNat?, c.toInt? with | some l, some c => if l < s.n then some (.setcap l (clampCap c)) else none | _, _ => none
   | ["close", l] => match l.toNat? with | some l => if l < s.n then some (.close l) else none | none => none
   | _ => none
 
@@ -146,7 +140,9 @@ def windowStep (d : DS) (ws0 : List String) : Option DS × String :=
       (if rootClose then explore 64 s ([.drainLock, .drain, .drainUnlock] :: ops.map (threadOf s)) else [])
     let outs := finals.map fun o => match o with | some s' => windowOutcome s s' ops | none => "stuck"
     let outs := (outs.eraseDups).mergeSort (fun a b => a ≤ b)
-    let matching := finals.find? fun o => match o with | some s' => collapseErr (windowOutcome s s' ops) == seen | none => false
+    let full (s' : S) : String :=
+      if (seen.splitOn " # ").length > 1 then windowOutcome s s' ops ++ " # " ++ dumpState s' else windowOutcome s s' ops
+    let matching := finals.find? fun o => match o with | some s' => collapseErr (full s') == seen | none => false
     match matching with
     | some (some s') => (some { d with s := s' }, windowOutcome s s' ops)
     | _ =>
@@ -159,11 +155,11 @@ def step (st : Option DS) (line : String) : Option DS × String :=
   match words line, st with
   | ["reset", c], _ =>
     match c.toInt? with
-    | some c => (some { s := init c.toNat }, "reset")
+    | some c => (some { s := initGo c }, "reset")
     | none => (st, "bad-op")
   | ["reset", c, "bb"], _ =>
     match c.toInt? with
-    | some c => (some { s := exec (init c.toNat) (.newChild 0 1), bb := true }, "reset")
+    | some c => (some { s := exec (initGo c) (.newChild 0 1), bb := true }, "reset")
     | none => (st, "bad-op")
   | _, none => (none, "bad-op")
   | ["new", p, c], some d =>
@@ -171,7 +167,7 @@ def step (st : Option DS) (line : String) : Option DS × String :=
     match p.toNat?, c.toInt? with
     | some p, some c =>
       if p < d.vis s then
-        let s' := exec s (.newChild (d.mid p) c.toNat)
+        let s' := exec s (.newChild (d.mid p) c)
         if s'.n = s.n then (some { d with s := s' }, "nil") else (some { d with s := s' }, "ok " ++ toString (d.vis s))
       else (st, "bad-handle")
     | _, _ => (st, "bad-op")
@@ -184,6 +180,7 @@ def step (st : Option DS) (line : String) : Option DS × String :=
         let out := match s'.answered.find? (fun x => x.1 == s.nextReq) with
           | some x => ansStr x.2
           | none => "pending"
+        let out := if a ≥ 0 && !intAgrees s (d.mid l) a.toNat then "go-int-arithmetic-differs" else out
         (some { d with s := s' }, "r" ++ toString s.nextReq ++ " " ++ out)
       else (st, "bad-handle")
     | _, _ => (st, "bad-op")
@@ -218,7 +215,7 @@ def step (st : Option DS) (line : String) : Option DS × String :=
   | ["setcap", l, c], some d =>
     match l.toNat?, c.toInt? with
     | some l, some c =>
-      if l < d.vis d.s then (some { d with s := exec d.s (.setCap (d.mid l) c.toNat) }, "ok") else (st, "bad-handle")
+      if l < d.vis d.s then (some { d with s := exec d.s (.setCap (d.mid l) c) }, "ok") else (st, "bad-handle")
     | _, _ => (st, "bad-op")
   | ["last", l], some d =>
     match l.toNat? with
@@ -230,4 +227,13 @@ def step (st : Option DS) (line : String) : Option DS × String :=
     | none => (st, "bad-op")
   | _, _ => (st, "bad-op")
 
-def main : IO Unit := Proto.run step none
+/-- every executed call is followed by the state dump (behind ` # `); the check drops it when the harness could not print
+    one (black-box builds) -/
+def stepDump (st : Option DS) (line : String) : Option DS × String :=
+  match step st line with
+  | (some d, out) =>
+    if out == "reset" || out == "bad-op" || out == "bad-handle" || out == "window-skipped" || d.bb then (some d, out)
+    else (some d, out ++ " # " ++ dumpState d.s)
+  | r => r
+
+def main : IO Unit := Proto.run stepDump none
